@@ -178,16 +178,38 @@ pub enum BAir {
     Fib,
     Mul,
     Lin(u32),
+    /// b' = a * b + c with c a PREPROCESSED column (c_i = i + 1) over `n` rows: the uni-STARK + preprocessed-commitment path.
+    /// The flag: the AIR declares that it reads the preprocessed column at the current row only
+    /// (`preprocessed_next_row_columns` = none, the optimisation p3-air documents), so the prover opens it at zeta only.
+    Prep(usize, bool),
 }
-impl<T> BaseAir<T> for BAir {
+impl<T: p3_field::Field> BaseAir<T> for BAir {
     fn width(&self) -> usize {
         2
     }
     fn num_public_values(&self) -> usize {
         3
     }
+    fn preprocessed_trace(&self) -> Option<RowMajorMatrix<T>> {
+        match self {
+            BAir::Prep(n, _) => Some(RowMajorMatrix::new((0..*n).map(|i| T::from_usize(i + 1)).collect(), 1)),
+            _ => None,
+        }
+    }
+    fn preprocessed_width(&self) -> usize {
+        matches!(self, BAir::Prep(..)) as usize
+    }
+    fn preprocessed_next_row_columns(&self) -> Vec<usize> {
+        match self {
+            BAir::Prep(_, false) => vec![0],
+            _ => vec![],
+        }
+    }
 }
-impl<AB: AirBuilder> Air<AB> for BAir {
+impl<AB: AirBuilder> Air<AB> for BAir
+where
+    AB::F: p3_field::Field,
+{
     fn eval(&self, builder: &mut AB) {
         if *self == BAir::Fib {
             return FibonacciAir {}.eval(builder);
@@ -197,6 +219,10 @@ impl<AB: AirBuilder> Air<AB> for BAir {
         let (a, b, x) = (pis[0], pis[1], pis[2]);
         let (l0, l1): (AB::Expr, AB::Expr) = (main.current_slice()[0].clone().into(), main.current_slice()[1].clone().into());
         let (n0, n1): (AB::Expr, AB::Expr) = (main.next_slice()[0].clone().into(), main.next_slice()[1].clone().into());
+        let prep_c: Option<AB::Expr> = match self {
+            BAir::Prep(..) => Some(builder.preprocessed().current_slice()[0].clone().into()),
+            _ => None,
+        };
         let mut first = builder.when_first_row();
         first.assert_eq(l0.clone(), a);
         first.assert_eq(l1.clone(), b);
@@ -205,6 +231,7 @@ impl<AB: AirBuilder> Air<AB> for BAir {
         let nxt = match self {
             BAir::Mul => l0 * l1.clone(),
             BAir::Lin(k) => l0 + l1.clone() * AB::Expr::from_u32(*k),
+            BAir::Prep(..) => l0 * l1.clone() + prep_c.expect("preprocessed value"),
             BAir::Fib => unreachable!(),
         };
         tr.assert_eq(nxt, n1);
@@ -225,6 +252,7 @@ fn base_trace(air: BAir, n: usize) -> (RowMajorMatrix<F>, Vec<F>) {
             BAir::Fib => a + b,
             BAir::Mul => a * b,
             BAir::Lin(k) => a + b * F::from_u32(k),
+            BAir::Prep(..) => a * b + F::from_usize(v.len() / 2),
         };
         a = b;
         b = nb;
@@ -296,7 +324,7 @@ pub struct Finding {
 }
 
 enum Pf {
-    Uni { proof: Proof<Cfg>, air: BAir, pis: Vec<F> },
+    Uni { proof: Proof<Cfg>, air: BAir, pis: Vec<F>, prep_commit: Option<<MyPcs as Pcs<Challenge, Challenger>>::Commitment> },
     Batch(RecursionOutput<Cfg>),
 }
 struct Item {
@@ -308,7 +336,7 @@ struct Item {
 impl Item {
     fn input(&self) -> RecursionInput<'_, Cfg, BAir> {
         match &self.pf {
-            Pf::Uni { proof, air, pis } => RecursionInput::UniStark { proof, air, public_inputs: pis.clone(), preprocessed_commit: None },
+            Pf::Uni { proof, air, pis, prep_commit } => RecursionInput::UniStark { proof, air, public_inputs: pis.clone(), preprocessed_commit: prep_commit.clone() },
             Pf::Batch(o) => o.into_recursion_input::<BAir>(),
         }
     }
@@ -409,12 +437,20 @@ fn prove_base(kind: &str, air: &str, k: u32, n: usize, p: &PSet) -> Result<Pf, S
         "fib" => BAir::Fib,
         "mul" => BAir::Mul,
         "lin" => BAir::Lin(k),
+        "prep" => BAir::Prep(n.max(4).next_power_of_two(), false),
+        "prepcur" => BAir::Prep(n.max(4).next_power_of_two(), true),
         o => return Err(format!("unknown air {o}")),
     };
     let (trace, pis) = base_trace(air, n.max(4).next_power_of_two());
+    if let BAir::Prep(rows, _) = air {
+        let (pd, vk) = p3_uni_stark::setup_preprocessed(&cfg, &air, p3_util::log2_ceil_usize(rows)).ok_or("no preprocessed data")?;
+        let proof = p3_uni_stark::prove_with_preprocessed(&cfg, &air, trace, &pis, Some(&pd));
+        p3_uni_stark::verify_with_preprocessed(&cfg, &air, &proof, &pis, Some(&vk)).map_err(|e| format!("base verify: {e:?}"))?;
+        return Ok(Pf::Uni { proof, air, pis, prep_commit: Some(vk.commitment.clone()) });
+    }
     let proof = p3_uni_stark::prove(&cfg, &air, trace, &pis);
     p3_uni_stark::verify(&cfg, &air, &proof, &pis).map_err(|e| format!("base verify: {e:?}"))?;
-    Ok(Pf::Uni { proof, air, pis })
+    Ok(Pf::Uni { proof, air, pis, prep_commit: None })
 }
 
 struct Proved {
@@ -579,6 +615,8 @@ pub fn run_case(idx: usize, case: &Case, _seed: u64) -> (Value, Vec<Finding>) {
 
         let run = |w: &mut World, slot: Option<&str>| {
             let t = Instant::now();
+            // marker for the hook events of the repository code (cfg(p3r_verif)): same thread, so the events that follow belong to this call
+            p3_circuit::verif_trace::emit(&format!("\"ev\":\"step\",\"case\":{idx},\"step\":{si},\"slot\":{}", serde_json::to_string(&slot).unwrap_or_default()));
             let r = guarded(|| if is_next { do_next(w, ins[0], slot, &label) } else { do_agg(w, ins[0], ins[1], slot, &label) });
             (r, t.elapsed().as_millis() as u64)
         };
@@ -612,6 +650,9 @@ pub fn run_case(idx: usize, case: &Case, _seed: u64) -> (Value, Vec<Finding>) {
         };
 
         let mut shapes = vec!["kb_d4".to_string(), skind.clone(), format!("depth{depth}")];
+        if ins.iter().any(|n| w.items[*n].desc.contains(":prepcur/")) {
+            shapes.push("uni-child-opens-preprocessed-at-current-row-only".into());
+        }
         // after a parameter change the commitments differ anyway: only call the circuit different when its counters differ
         if other_circuit == Some(true) && (!slot_pset_changed || fp_equal == Some(false)) {
             shapes.push("cache-reused-for-different-circuit".into());
@@ -643,6 +684,10 @@ pub fn run_case(idx: usize, case: &Case, _seed: u64) -> (Value, Vec<Finding>) {
         // the uncached run on inputs that were proven + natively verified must work
         if fv == "panic" {
             findings.push(Finding { kind: "layer-panics".into(), signature: sig("layer-panics"), detail: detail(json!({})) });
+        } else if fv == "err" && (fmsg.contains("PublicInputLengthMismatch") || fmsg.contains("PrivateInputLengthMismatch")) {
+            // the vectors packed by the unified API (FriVerifierResult::pack_public_inputs / pack_private_inputs) do not have the
+            // lengths the circuit allocated: a C14 finding (kind prefixed so the aggregator files it under C14)
+            findings.push(Finding { kind: "C14:packed-length-mismatch".into(), signature: format!("packed-length-mismatch@unified-api+{}", shapes.join("+")), detail: detail(json!({"inputs": ins})) });
         } else if fv == "err" && !fmsg.starts_with("unsupported") {
             findings.push(Finding { kind: "output-not-a-valid-input".into(), signature: sig("output-not-a-valid-input"), detail: detail(json!({"inputs": ins})) });
         } else if fv == "rejected" {
@@ -687,6 +732,15 @@ pub fn cmd(args: &[String]) -> i32 {
     let input = arg(args, "--in").expect("--in");
     let out = arg(args, "--out").expect("--out");
     let seed: u64 = arg(args, "--seed").and_then(|s| s.parse().ok()).unwrap_or(1);
+    // hook events of the repository code go to this file (the sink reads P3R_TRACE once, before the first event)
+    if let Some(ev) = arg(args, "--events") {
+        let _ = std::fs::remove_file(&ev);
+        // SAFETY: set before any worker thread is started
+        unsafe {
+            std::env::set_var("P3R_TRACE", &ev);
+            std::env::set_var("P3R_TRACE_EVENTS", "step,agg_cache");
+        }
+    }
     let threads: usize = arg(args, "--threads").and_then(|s| s.parse().ok()).unwrap_or(8);
     let f = std::fs::File::open(&input).expect("open input");
     let lines: Vec<String> = BufReader::new(f).lines().map(|l| l.unwrap()).filter(|l| !l.trim().is_empty()).collect();
@@ -761,7 +815,13 @@ pub fn cmd(args: &[String]) -> i32 {
             e.0 += 1;
         }
     }
-    let findings: Vec<Value> = groups.into_iter().map(|((k, s), (n, ex))| json!({"property": "C17", "kind": k, "signature": s, "count": n, "example": ex})).collect();
+    let findings: Vec<Value> = groups
+        .into_iter()
+        .map(|((k, s), (n, ex))| match k.split_once(':') {
+            Some((prop, kind)) if prop.starts_with('C') && prop.len() == 3 => json!({"property": prop, "kind": kind, "signature": s, "count": n, "example": ex}),
+            _ => json!({"property": "C17", "kind": k, "signature": s, "count": n, "example": ex}),
+        })
+        .collect();
     let timing: BTreeMap<String, Value> = ms_by_kind.into_iter().map(|(k, (n, t, m))| (k, json!({"n": n, "mean_ms": t / n.max(1), "max_ms": m}))).collect();
     let res = json!({"stats": {"counts": stats, "timing": timing, "wall_ms": t0.elapsed().as_millis() as u64, "seed": seed,
         "panic_sites": PANIC_SITES.lock().map(|m| m.clone()).unwrap_or_default()},
